@@ -160,3 +160,43 @@ def mutants(argv):
         json.dump(results, f, indent=1, sort_keys=True)
     sys.stdout.write("mutants: %d run, %d missed\n" % (len(results), missed))
     return 0 if missed == 0 else 1
+
+
+def refactorings(argv):
+    """Apply each /verif/refactorings/*.diff (behaviour-preserving) to a scratch copy of /repo; every quick check must exit 0."""
+    import run as runmod
+
+    only = [a for a in argv if not a.startswith("-")]
+    results = []
+    alarms = 0
+    for patch in sorted(glob.glob(os.path.join(VERIF, "refactorings", "*.diff"))):
+        name = os.path.basename(patch)[:-5]
+        if only and not any(o in name for o in only):
+            continue
+        tmp = tempfile.mkdtemp(prefix="verif-refactoring-")
+        try:
+            dst = os.path.join(tmp, "repo")
+            shutil.copytree("/repo", dst, ignore=shutil.ignore_patterns(".git", "__pycache__", "*.egg-info", "docs", "benchmarks"))
+            ap = subprocess.run(["patch", "-p1", "-s", "-d", dst, "-i", patch], stdout=subprocess.PIPE, stderr=subprocess.STDOUT)
+            if ap.returncode != 0:
+                results.append({"refactoring": name, "status": "patch does not apply"})
+                sys.stdout.write("refactoring %-8s PATCH-DOES-NOT-APPLY\n" % name)
+                continue
+            row = {"refactoring": name, "checks": {}}
+            for pid in sorted(runmod.PROPS):
+                env = dict(os.environ, PYTHONPATH=dst, VERIF_REPO=dst, PYTHONHASHSEED="0", VERIF_NO_EVIDENCE="1")
+                t0 = time.time()
+                cp = subprocess.run([sys.executable, os.path.join(HERE, "run.py"), pid, "quick"], stdout=subprocess.PIPE, stderr=subprocess.STDOUT, env=env, timeout=3000)
+                row["checks"][pid] = {"exit": cp.returncode, "wall_s": round(time.time() - t0, 1)}
+                if cp.returncode != 0:
+                    alarms += 1
+                    row["checks"][pid]["output"] = cp.stdout.decode(errors="replace")[-1500:]
+            results.append(row)
+            sys.stdout.write("refactoring %-8s %s\n" % (name, "NO ALARM" if all(c["exit"] == 0 for c in row["checks"].values()) else "ALARM " + json.dumps({k: v["exit"] for k, v in row["checks"].items() if v["exit"]})))
+            sys.stdout.flush()
+        finally:
+            shutil.rmtree(tmp, ignore_errors=True)
+    with open(os.path.join(VERIF, "evidence", "selftest-refactorings.json"), "w") as f:
+        json.dump(results, f, indent=1, sort_keys=True)
+    sys.stdout.write("refactorings: %d run, %d alarms\n" % (len(results), alarms))
+    return 0 if alarms == 0 else 1
